@@ -140,6 +140,83 @@ def c_hdr(h):
 
 RK = {"jws": "RJws", "jws7797": "RJws7797", "jwe": "(RJwe false)", "jwed": "(RJwe true)"}
 
+# scenario entry -> constructor of model/C15Cases.v:entry
+ENTRY_COQ = {
+    "jws.serialize_compact": "JwsSerializeCompact", "jws.serialize_json.flattened": "JwsSerializeJson",
+    "jws.serialize_json.general": "JwsSerializeJson", "jws.validate_compact": "JwsValidateCompact",
+    "jws.deserialize_compact": "JwsDeserializeCompact", "jws.deserialize_json.flattened": "JwsDeserializeJson",
+    "jws.deserialize_json.general": "JwsDeserializeJson",
+    "rfc7797.serialize_compact": "R7797SerializeCompact", "rfc7797.serialize_json": "R7797SerializeJson",
+    "rfc7797.deserialize_compact": "R7797DeserializeCompact", "rfc7797.deserialize_json": "R7797DeserializeJson",
+    "jwt.encode.jws": "JwtEncodeJws", "jwt.decode.jws": "JwtDecodeJws",
+    "jwt.encode.jwe": "(JwtEncodeJwe false)", "jwt.decode.jwe": "(JwtDecodeJwe false)",
+    "jwe.encrypt_compact": "(JweEncryptCompact false)", "jwe.encrypt_json.flattened": "(JweEncryptJson false)",
+    "jwe.encrypt_json.general": "(JweEncryptJson false)", "jwe.decrypt_compact": "(JweDecryptCompact false)",
+    "jwe.decrypt_compact.lib": "(JweDecryptCompact false)", "jwe.decrypt_json.flattened": "(JweDecryptJson false)",
+    "jwe.decrypt_json.general": "(JweDecryptJson false)", "jwe.decrypt_json.edited": "(JweDecryptJson false)",
+}
+# every public callable of the four API modules, classified; the scenario entries that exercise it.
+# An export that is not listed here makes the check fail (closed): a new public producing / consuming
+# function has to get scenarios before C15 can pass again.
+EXPORTS = {
+    "jws": {"serialize_compact": ["jws.serialize_compact"],
+            "deserialize_compact": ["jws.deserialize_compact"],
+            "validate_compact": ["jws.validate_compact"],
+            "serialize_json": ["jws.serialize_json.flattened", "jws.serialize_json.general"],
+            "deserialize_json": ["jws.deserialize_json.flattened", "jws.deserialize_json.general"],
+            "extract_compact": None,       # parses only: takes no key, gives no verdict (first half of validate_compact)
+            "detach_content": None},       # string / dict surgery on a serialization: no key, no verdict
+    "rfc7797": {"serialize_compact": ["rfc7797.serialize_compact"], "deserialize_compact": ["rfc7797.deserialize_compact"],
+                "serialize_json": ["rfc7797.serialize_json"], "deserialize_json": ["rfc7797.deserialize_json"]},
+    "jwe": {"encrypt_compact": ["jwe.encrypt_compact"],
+            "decrypt_compact": ["jwe.decrypt_compact", "jwe.decrypt_compact.lib"],
+            "encrypt_json": ["jwe.encrypt_json.flattened", "jwe.encrypt_json.general"],
+            "decrypt_json": ["jwe.decrypt_json.flattened", "jwe.decrypt_json.general", "jwe.decrypt_json.edited"]},
+    "jwt": {"encode": ["jwt.encode.jws", "jwt.encode.jwe"], "decode": ["jwt.decode.jws", "jwt.decode.jwe"],
+            "check_sensitive_data": None},  # inspects claims only
+}
+CLAIMS = {"sub": "x"}
+CLAIMS_JSON = b'{"sub":"x"}'
+
+
+def entry_parts(entry, parts):
+    """the parts an entry point merges (jwt.encode: {"typ": "JWT", **header})"""
+    return ([{"typ": "JWT"}] + list(parts)) if entry.startswith("jwt.encode") else list(parts)
+
+
+def check_exports(ctx, dist):
+    """fail closed on public functions this check does not know, and on known ones left unexercised"""
+    import inspect
+    from joserfc import jws, jwe, jwt, rfc7797
+    mods = {"jws": jws, "jwe": jwe, "jwt": jwt, "rfc7797": rfc7797}
+    seen, unknown, idle = 0, [], []
+    for mname, mod in mods.items():
+        for n in mod.__all__:
+            o = getattr(mod, n, None)
+            if not inspect.isfunction(o):
+                continue
+            seen += 1
+            if n not in EXPORTS[mname]:
+                unknown.append("%s.%s" % (mname, n))
+                continue
+            for e in EXPORTS[mname][n] or []:
+                if not any(k.startswith("api:%s:" % e) for k in dist):
+                    idle.append(e)
+        for n in EXPORTS[mname]:
+            if n not in mod.__all__:
+                unknown.append("%s.%s (listed here, no longer exported)" % (mname, n))
+    ctx.coverage["public_functions_seen"] = seen
+    ctx.coverage["public_functions_unclassified"] = unknown
+    ctx.coverage["entry_points_without_cases"] = idle
+    for u in unknown:
+        ctx.violation({"kind": "unknown-export", "function": u},
+                      "public function %s is not classified by the C15 check (producing / consuming / neither): "
+                      "header validation on it is unchecked" % u,
+                      {"no_failing_input_found": True, "broken": "entry-point table of harness/props/c15.py", "function": u})
+    for e in idle:
+        ctx.violation({"kind": "entry-without-cases", "entry": e}, "no API-level case was generated for %s" % e,
+                      {"no_failing_input_found": True, "broken": "generators of harness/props/c15.py", "entry": e})
+
 
 def call(f, *a, **kw):
     try:
@@ -201,9 +278,10 @@ def hs256(msg):
     return hmac.new(K16, msg, hashlib.sha256).digest()
 
 
-def own_jws_compact(protected, raw):
+def own_jws_compact(protected, raw, payload=None):
+    payload = PAYLOAD if payload is None else payload
     hseg = b64u(jdump(protected))
-    pseg = PAYLOAD if raw else b64u(PAYLOAD)
+    pseg = payload if raw else b64u(payload)
     return (hseg + b"." + pseg + b"." + b64u(hs256(hseg + b"." + pseg))).decode()
 
 
@@ -217,7 +295,7 @@ def own_jws_member(protected, header, payload_seg):
     return m
 
 
-def own_jwe(rng, protected, unprotected, recips, compact):
+def own_jwe(rng, protected, unprotected, recips, compact, payload=None):
     """recips: [(header|None, 'dir'|'A128KW', key)].  A128GCM content encryption."""
     from cryptography.hazmat.primitives.ciphers.aead import AESGCM
     from cryptography.hazmat.primitives.keywrap import aes_key_wrap
@@ -225,7 +303,7 @@ def own_jwe(rng, protected, unprotected, recips, compact):
     cek = recips[0][2] if direct else bytes(rng.randrange(256) for _ in range(16))
     pseg = b64u(jdump(protected))
     iv = bytes(rng.randrange(256) for _ in range(12))
-    pt = PAYLOAD
+    pt = PAYLOAD if payload is None else payload
     if protected.get("zip") == "DEF":
         pt = zlib.compress(pt)[2:-4]
     ct = AESGCM(cek).encrypt(iv, pt, pseg)
@@ -388,19 +466,19 @@ class Run:
         raised = "None"
         if r[0] == "err" and (rk == "jws" or rk == "jws7797" or (members and members[0] and members[0][0].get("enc") == "A128GCM")):
             raised = "(Some %s)" % c_exn(exn_class(r[1]))
-        self.cases.append("CApi %s %s %s %s %s %s" % (
-            RK[rk], c_cfg(cfg), c_bool(cm), c_list([c_list([c_hdr(p) for p in parts]) for parts in members]),
+        self.cases.append("CApi %s %s %s %s %s" % (
+            ENTRY_COQ[spec["entry"]], c_cfg(cfg), c_list([c_list([c_hdr(p) for p in parts]) for parts in members]),
             c_bool(r[0] == "ok"), raised))
         self.meta.append(spec)
         ctx.note_case(("api", json.dumps(spec, sort_keys=True, default=str)))
         self.count("api:%s:%s" % (spec["entry"], "ok" if r[0] == "ok" else "rejected"))
-        merged = [merge(parts) for parts in members]
+        merged = [merge(entry_parts(spec["entry"], parts)) for parts in members]
         clauses = [failed_clause(rk, cfg, cm, m, self.recommended) for m in merged]
         bad = [c for c in clauses if c is not None]
         overrides = bool(cfg) and any(n in ("crit", "alg") for n, _, _ in cfg["extra"])
         if not overrides:
             self.direct(r, not bad, bad[0] if bad else None, spec, spec["entry"], rk, merged)
-        if r[0] == "ok" and spec.get("expect_payload") and r[1] != PAYLOAD:
+        if r[0] == "ok" and spec.get("expect_payload") and r[1] != (CLAIMS if spec["entry"].startswith("jwt.") else PAYLOAD):
             ctx.violation({"kind": "wrong-payload", "entry": spec["entry"]},
                           "%s returned %r instead of the protected content" % (spec["entry"], r[1]), spec)
 
@@ -472,7 +550,39 @@ def execute(spec, rng):
         member = {k: v for k, v in (("protected", ms[0][0]), ("header", ms[0][1])) if v is not None}
         r = call(rfc7797.serialize_json, copy.deepcopy(member), PAYLOAD, key, registry=reg)
         return r, [[p for p in ms[0] if p is not None]]
+    if entry == "jwt.encode.jws":
+        from joserfc import jwt
+        r = call(jwt.encode, copy.deepcopy(ms[0][0]), dict(CLAIMS), key, registry=reg)
+        return r, [[ms[0][0]]]
+    if entry == "jwt.encode.jwe":
+        from joserfc import jwt
+        r = call(jwt.encode, copy.deepcopy(ms[0][0]), dict(CLAIMS), jwe_key(spec["modes"][0]), registry=reg)
+        return r, [[ms[0][0]]]
     # ---- consuming JWS: tokens signed here
+    if entry == "jws.validate_compact":
+        # the public two-step route: extract_compact, then validate_compact gives the verdict
+        tok = own_jws_compact(ms[0][0], False)
+
+        def two_step():
+            obj = jws.extract_compact(tok.encode())
+            if jws.validate_compact(obj, key, registry=reg) is not True:
+                raise RuntimeError("validate_compact did not return True for a valid signature")
+            return obj.payload
+        return call(two_step), [[ms[0][0]]]
+    if entry == "jwt.decode.jws":
+        from joserfc import jwt
+        tok = own_jws_compact(ms[0][0], False, CLAIMS_JSON)
+        r = call(jwt.decode, tok, key, registry=reg)
+        if r[0] == "ok":
+            r = ("ok", r[1].claims)
+        return r, [[ms[0][0]]]
+    if entry == "jwt.decode.jwe":
+        from joserfc import jwt
+        tok = own_jwe(rng, ms[0][0], None, [(None, spec["modes"][0], K16)], True, CLAIMS_JSON)
+        r = call(jwt.decode, tok, key, registry=reg)
+        if r[0] == "ok":
+            r = ("ok", r[1].claims)
+        return r, [[ms[0][0]]]
     if entry in ("jws.deserialize_compact", "rfc7797.deserialize_compact"):
         p = ms[0][0]
         raw = entry.startswith("rfc7797") and "b64" in p and p["b64"] is not True
@@ -722,6 +832,8 @@ def gen_api_jws(run, ctx):
     plan = [("jws.serialize_compact", "jws", 1, False), ("jws.serialize_json.flattened", "jws", 2, False),
             ("jws.serialize_json.general", "jws", 2, True), ("rfc7797.serialize_compact", "jws7797", 1, False),
             ("rfc7797.serialize_json", "jws7797", 2, False),
+            ("jwt.encode.jws", "jws", 1, False), ("jws.validate_compact", "jws", 1, False),
+            ("jwt.decode.jws", "jws", 1, False),
             ("jws.deserialize_compact", "jws", 1, False), ("jws.deserialize_json.flattened", "jws", 2, False),
             ("jws.deserialize_json.general", "jws", 2, True), ("rfc7797.deserialize_compact", "jws7797", 1, False),
             ("rfc7797.deserialize_json", "jws7797", 2, False)]
@@ -742,7 +854,8 @@ def gen_api_jws(run, ctx):
                 edit_parts(rng, parts, nparts, names, cfg)
                 if nparts == 1:
                     parts[0] = parts[0] or {}
-                    if entry.endswith("deserialize_compact") and "alg" not in parts[0]:
+                    if (entry.endswith("deserialize_compact") or entry in ("jws.validate_compact", "jwt.decode.jws")) \
+                            and "alg" not in parts[0]:
                         parts[0]["alg"] = "HS256"        # extract_compact demands alg before any header check
                 members.append(parts)
             if entry in ("rfc7797.serialize_json", "rfc7797.deserialize_json") and any(
@@ -752,7 +865,7 @@ def gen_api_jws(run, ctx):
                 # rule is not part of C15 (b64 in the unprotected header WITHOUT a protected header is kept)
                 continue
             spec = {"entry": entry, "rk": rk, "cfg": cfg, "cm": False, "members": members,
-                    "expect_payload": "deserialize" in entry}
+                    "expect_payload": ("deserialize" in entry or "validate" in entry or "decode" in entry)}
             if not json_ok(spec):
                 continue
             run.api_case(spec)
@@ -810,14 +923,16 @@ def gen_api_jwe_produce(run, ctx):
     rng = ctx.rng
     names = [n for n in ALL_NAMES if n != "b64"] + ["crit", "kid", "zip"]
     modes_all = ["dir", "A128KW", "ECDH-ES", "ECDH-ES+A128KW", "PBES2-HS256+A128KW", "A128GCMKW"]
-    for entry, nparts, multi in (("jwe.encrypt_compact", 1, False), ("jwe.encrypt_json.flattened", 3, False),
-                                 ("jwe.encrypt_json.general", 3, True)):
+    for entry, nparts, multi in (("jwe.encrypt_compact", 1, False), ("jwt.encode.jwe", 1, False),
+                                 ("jwe.encrypt_json.flattened", 3, False), ("jwe.encrypt_json.general", 3, True)):
         for _ in range(ctx.scale(170, 2000)):
             nrec = rng.choice([1, 2]) if multi else 1
             modes = [rng.choice(modes_all if nrec == 1 else ["A128KW", "ECDH-ES+A128KW", "PBES2-HS256+A128KW", "A128GCMKW"])
                      for _r in range(nrec)]
             need = [m for m in modes if m not in run.recommended]
             cfg = api_cfg("jwe", rng, need_allowed=(need + ["A128GCM", "DEF"]) if need else None)
+            if cfg is None and entry.startswith("jwt."):
+                cfg = {"extra": [], "strict": True, "allowed": None}   # jwt.* takes the JWE route for a JWERegistry only
             members = jwe_members(rng, modes, nparts, names, cfg)
             if members is None:
                 continue
@@ -829,12 +944,14 @@ def gen_api_jwe_produce(run, ctx):
 def gen_api_jwe_consume_own(run, ctx):
     rng = ctx.rng
     names = [n for n in ALL_NAMES if n != "b64"] + ["crit", "kid"]
-    for entry, nparts, multi in (("jwe.decrypt_compact", 1, False), ("jwe.decrypt_json.flattened", 3, False),
-                                 ("jwe.decrypt_json.general", 3, True)):
+    for entry, nparts, multi in (("jwe.decrypt_compact", 1, False), ("jwt.decode.jwe", 1, False),
+                                 ("jwe.decrypt_json.flattened", 3, False), ("jwe.decrypt_json.general", 3, True)):
         for _ in range(ctx.scale(170, 2000)):
             nrec = rng.choice([1, 2]) if multi else 1
             modes = [rng.choice(["dir", "A128KW"])] if nrec == 1 else ["A128KW", "A128KW"]
             cfg = api_cfg("jwe", rng)
+            if cfg is None and entry.startswith("jwt."):
+                cfg = {"extra": [], "strict": True, "allowed": None}
             members = jwe_members(rng, modes, nparts, names, cfg)
             if members is None:
                 continue
@@ -964,10 +1081,12 @@ def run(ctx):
     n0 = len(R.cases)
     gen_function_level(R, ctx, ("jwed",))
     gen_drafts(R, ctx)
+    check_exports(ctx, R.dist)
     ctx.coverage["input_distribution"] = dict(sorted(R.dist.items()))
     ctx.coverage["rule"] = ("function level: registry.check_header on every (name x JSON value) edit of a valid header, "
                             "random multi-edit headers, crit of every shape, under default / strict-off / caller registries; "
-                            "API level: 10 JWS + 6 JWE entry points, header parts in protected / unprotected / per-recipient "
+                            "API level: every public producing / consuming function of jws, rfc7797, jwe, jwt (incl. the two-step "
+                            "extract_compact + validate_compact and jwt.encode / jwt.decode over JWS and JWE), header parts in protected / unprotected / per-recipient "
                             "position, consuming side on validly signed / encrypted tokens")
     ctx.coverage["function_level_cases"] = n_fn + (len(R.cases) - n0)
     ctx.coverage["api_level_cases"] = n_api
@@ -1041,7 +1160,7 @@ def replay(path):
         return 1 if (res[0] == "ok") != (clause is None) else 0
     if "entry" in r:
         res, members = execute(r, random.Random(0))
-        merged = [merge(p) for p in members]
+        merged = [merge(entry_parts(r["entry"], p)) for p in members]
         bad = [c for c in (failed_clause(r["rk"], r["cfg"], r["cm"], m, rec) for m in merged) if c]
         print("implementation:", res, "| merged headers:", merged, "| property clauses violated:", bad)
         return 1 if (res[0] == "ok") != (not bad) else 0
